@@ -160,3 +160,15 @@ package actionlint
 // the ignore filter before it is returned
 //@ func (*Linter).check
 //@   body_calls [C15] (*Linter).filterErrors iff result1 == nil
+
+// C20: "each ${{ }} replaced by an equally long placeholder so that reported offsets stay valid": the
+// sanitised script is exactly as long as the script (blen(b): bytes accumulated in the builder; what is
+// written so far plus what is still to be copied is the length of the input)
+//@ func sanitizeExpressionsInScript
+//@   props C20
+//@   ensures len(result) == len(src0)
+//@   loop "for":
+//@     invariant blen(b) + len(src) == len(src0)
+//@   loop "i < e - s":
+//@     invariant 0 <= i && blen(b) + (e - s - i) + len(src) - e == len(src0)
+//@     invariant 0 <= s && s <= e && e <= len(src)
